@@ -11,6 +11,7 @@ CONSTANTS
   FirstWriteKeeps = TRUE
   HookEditsOld = FALSE
   LendsOld = FALSE
+  MergeFiltersSrc = FALSE
   InitKinds = {"present"}
   NCases = 0
   MinOps = 1
